@@ -4,6 +4,7 @@
 //!   mqtt-mc replay <file>
 
 mod astjson;
+mod bigalloc;
 mod bind;
 mod checks;
 mod e1;
@@ -14,6 +15,10 @@ mod front;
 mod replay;
 
 use ev::{Ctx, Tier};
+
+#[cfg(not(miri))]
+#[global_allocator]
+static GLOBAL: bigalloc::BigCache = bigalloc::BigCache;
 use std::time::Instant;
 
 fn main() {
